@@ -182,6 +182,29 @@ def thread_jumps(body, rounds=4, hops=4):
             break
 
 
+def strip_logging(body):
+    """`log::trace!/debug!/info!/warn!/error!` expand to `if Level::X <= STATIC_MAX_LEVEL && Level::X <= max_level() { log(..) }`.
+    Logging has no bearing on any of the properties, so the level test is taken as false: the statement (and the
+    formatting of its arguments) disappears from the analysed program.  Returns the number of statements removed."""
+    n = 0
+    for b in body["blocks"]:
+        t = b["term"]
+        if t["k"] != "call" or not t.get("exp"):
+            continue
+        c = callee_of(t)
+        atys = t.get("atys") or []
+        if c is None or c.get("name") != "le" or len(atys) != 2:
+            continue
+        if not (atys[0].endswith("log::Level") and atys[1].endswith("log::LevelFilter")):
+            continue
+        if t.get("dest") is None or t.get("t") is None:
+            continue
+        b["stmts"].append(_assign(copy.deepcopy(t["dest"]), {"k": "use", "op": _const_bool(False)}, t.get("line", 0)))
+        b["term"] = {"k": "goto", "t": t["t"], "line": t.get("line", 0), "exp": True}
+        n += 1
+    return n
+
+
 def fold_const_switches(body, rounds=3):
     """A switch on a local whose only definition in the whole body is a constant (typically a bool/enum parameter of
     an inlined helper called with a literal) becomes a goto."""
@@ -290,7 +313,8 @@ class Inliner:
                 if self._try_fusion(i, b, t) or self._try_combinator(i, b, t) or self._try_direct(i, b, t):
                     continue  # re-examine the same block index (its terminator is now a goto) -> moves on next iteration
             i += 1
-        if self.inlined:
+        stripped = strip_logging(body)
+        if self.inlined or stripped:
             fold_const_switches(body)
             thread_jumps(body)
             prune_unreachable(body)
